@@ -54,6 +54,7 @@ func runC09(c *Ctx) {
 	if pkv := c.Load("kvstore"); pkv != nil {
 		checkExtendedRealm(r, pkv, "kvstore/mapdb", "mapDB")
 	}
+	checkErrorConstructorsNonNil(r, p)
 	// (1) locks
 	checkGuards(r, p, "lock/guarded-by", []GuardRow{
 		{Pkg: pkg, Type: "authenticatedMap", Mutex: "mutex", Fields: []string{"tree"},
